@@ -261,9 +261,11 @@ def run_D(case):
         naive = pd.date_range(f0, periods=ndays, freq="D")
         idx = naive.tz_localize(zone, ambiguous=True, nonexistent="shift_forward")
         pos = int(np.flatnonzero(naive == day)[0])
-        for defect in ("none", "Tnan_on", "Tnan_after", "Unan_on", "Tinf_before", "Tnan_first2", "Tnan_last2", "Tnan_ends"):
+        for defect in ("none", "Tnan_on", "Tnan_after", "Unan_on", "Tinf_before", "Tnan_first2", "Tnan_last2", "Tnan_ends", "Uoffcycle"):
             for usage in (True, False):
-                if defect == "Unan_on" and not usage:
+                if defect in ("Unan_on", "Uoffcycle") and not usage:
+                    continue
+                if defect == "Uoffcycle" and family != "billing":
                     continue
                 key = {"family": family, "usage": usage}
                 T = 40.0 + 2.0 * np.arange(ndays)
@@ -289,6 +291,9 @@ def run_D(case):
                         temp = pd.Series(T, index=idx, name="temperature")
                         if usage:
                             reads = pd.Series([3000.0, np.nan if defect == "Unan_on" else 3100.0, np.nan], index=idx[[0, 30, 60]], name="observed")
+                            if defect == "Uoffcycle":
+                                # a 10-day off-cycle read between two regular periods: its days keep their temperature, lose their usage
+                                reads = pd.Series([3000.0, 500.0, 2700.0, np.nan], index=idx[[0, 30, 40, 68]], name="observed")
                             data = em.BillingReportingData.from_series(reads, temp, is_electricity_data=True)
                         else:
                             data = em.BillingReportingData.from_series(None, temp, is_electricity_data=True)
